@@ -29,8 +29,13 @@
       num++ ; nid := fmt.Sprintf(`n%d`, num)                    (Mermaid node ids)
       fmt.Fprintf(w, `  %s(DQ%sDQ)\n`, nid, mermaidText(name))   (node without a native action)
       fmt.Fprintf(w, `  %s[DQ%sDQ]\n`, nid, mermaidText(name))   (native action / placeholder)
+      func dotHTML(s string) string {
+        return strings.NewReplacer(`&`, `&amp;`, `<`, `&lt;`, `>`, `&gt;`).Replace(s) }
+
+      label := dotHTML(name)
+      if n.Doc != `` { ... label += `<BR/><FONT POINT-SIZE='8'>` + dotHTML(doc) + `</FONT>` }
       fmt.Fprintf(w, `  %s [shape=..., label=<%s> ]\n`, dotID(name), ..., label)
-                                                   (label begins with the raw name)
+      fmt.Fprintf(w, `  %s [shape=DQplaintextDQ, ..., label=<%s> ]\n`, dotID(name), dotHTML(name))   (placeholder)
       fmt.Fprintf(w, `  %s -> %s [ color=... ]\n`, dotID(name), dotID(b.Target), ...) *)
 From Coq Require Import String Ascii List Bool Arith DecimalString.
 Import ListNotations.
@@ -80,10 +85,28 @@ Definition dot_node_head (name : string) : string := "  " ++ dot_id name ++ " ["
 Definition dot_edge_head (a b : string) : string :=
   "  " ++ dot_id a ++ " -> " ++ dot_id b ++ " [".
 
-(** the HTML-like label [label=<...>] of a node statement begins with the
-    name exactly as it is (no escaping at all); a doc string and the action
-    source may follow *)
-Definition dot_label_name (name : string) : string := name.
+(** the HTML-like label [label=<...>] of a node statement: the name goes
+    through dotHTML (repair of D55; before it the name was written as it is,
+    [dot_label_raw]); a doc string, escaped in the same way, may follow inside
+    fixed markup (the doc is cut at its first sentence when it is longer than
+    40 bytes - the cut is not modelled, [doc] is the text that is written) *)
+Definition amp : ascii := "038"%char.       (* & *)
+
+Definition html_pairs : list (ascii * string) :=
+  [ (amp, "&amp;"); (langle, "&lt;"); (rangle, "&gt;") ].
+
+Definition dot_html (s : string) : string := byte_replace html_pairs s.
+
+Definition dot_label_name (name : string) : string := dot_html name.
+
+Definition dot_label_raw (name : string) : string := name.     (* tools/dot.go before the repair *)
+
+Definition dot_node_label (name doc : string) : string :=
+  dot_label_name name ++
+  match doc with
+  | EmptyString => EmptyString
+  | _ => "<BR/><FONT POINT-SIZE='8'>" ++ dot_html doc ++ "</FONT>"
+  end.
 
 (** * Mermaid: mermaidText, node ids *)
 Definition mermaid_pairs : list (ascii * string) :=
